@@ -936,6 +936,80 @@ F
 //@end
 }
 
+// ---- GenPowerCone::step_length (C15), with the contract shape of unit `steplen` (PowerCone / ExponentialCone::step_length)
+//@struct file=src/solver/implementations/default/settings.rs name=DefaultSettings rules=R1f
+//@type file=src/solver/core/settings.rs name=CoreSettings
+pub open spec fn trial_at(w: Seq<F>, q: Seq<F>, dq: Seq<F>, a: F) -> bool {
+    w.len() == q.len() && forall|i: int| 0 <= i < q.len() ==> #[trigger] w[i] == f_add(f_mul(f_one(), q[i]), f_mul(a, dq[i]))
+}
+pub open spec fn trial_rejected<FN: Fn(&[F]) -> bool>(f: FN, q: Seq<F>, dq: Seq<F>, a: F) -> bool {
+    exists|w: &[F]| trial_at(w@, q, dq, a) && f.ensures((w,), false)
+}
+// ASSUMED (PROVED in unit `steplen` from the real body, same contract text): backtrack_search
+#[verifier::external_body]
+pub fn backtrack_search<FN: Fn(&[F]) -> bool>(dq: &[F], q: &[F], alpha_init: F, alpha_min: F, step: F, is_in_cone_fcn: FN, work: &mut [F]) -> (r: F)
+    requires
+        old(work)@.len() == q@.len(), q@.len() == dq@.len(),
+        forall|w: &[F]| #![trigger is_in_cone_fcn.requires((w,))] is_in_cone_fcn.requires((w,)),
+    ensures
+        final(work)@.len() == old(work)@.len(),
+        (r == f_zero() && exists|prev: F| #[trigger] trial_rejected(is_in_cone_fcn, q@, dq@, prev) && f_lt(f_mul(prev, step), alpha_min)) || ({
+            &&& is_in_cone_fcn.ensures((&*final(work),), true)
+            &&& forall|i: int| 0 <= i < q@.len() ==> #[trigger] final(work)@[i] == f_add(f_mul(f_one(), q@[i]), f_mul(r, dq@[i]))
+            &&& (r == alpha_init || exists|prev: F| r == f_mul(prev, step) && #[trigger] trial_rejected(is_in_cone_fcn, q@, dq@, prev))
+        }),
+{ unimplemented!() }
+pub uninterp spec fn gp_in_primal(al: Seq<F>, s: Seq<F>) -> bool;
+pub uninterp spec fn gp_in_dual(al: Seq<F>, z: Seq<F>) -> bool;
+impl GenPowerCone<F> {
+    // the membership tests (all / zip / fold arithmetic over exp, log) are uninterpreted here: DROPPED as bodies, see the header
+    // (functions of what the tests read: the powers alpha - whose length is dim1 - and the point)
+    pub open spec fn in_primal(&self, s: Seq<F>) -> bool { gp_in_primal(self.alpha@, s) }
+    pub open spec fn in_dual(&self, z: Seq<F>) -> bool { gp_in_dual(self.alpha@, z) }
+    #[verifier::external_body] pub fn is_primal_feasible(&self, s: &[F]) -> (b: bool) ensures b == self.in_primal(s@) { unimplemented!() }
+    #[verifier::external_body] pub fn is_dual_feasible(&self, z: &[F]) -> (b: bool) ensures b == self.in_dual(z@) { unimplemented!() }
+//@fn file=src/solver/core/cones/genpowcone.rs in="Cone<T> for GenPowerCone<T>" name=step_length rules=R1,R2 ret=r
+//@contract
+    requires gp_wf(*old(self)), dz@.len() == gp_dim(*old(self)), ds@.len() == gp_dim(*old(self)), z@.len() == gp_dim(*old(self)), s@.len() == gp_dim(*old(self)),
+    ensures
+        gp_same_but_scratch(*final(self), *old(self)), gp_wf(*final(self)),
+        // "never leads outside the cone when taken": a nonzero dual step was accepted by the DUAL-cone test on z + a*dz, a nonzero
+        // slack step by the PRIMAL-cone test on s + a*ds
+        r.0 == f_zero() || exists|w: Seq<F>| old(self).in_dual(w) && trial_at(w, z@, dz@, r.0),
+        r.1 == f_zero() || exists|w: Seq<F>| old(self).in_primal(w) && trial_at(w, s@, ds@, r.1),
+        // "not needlessly short": alphamax itself, or one backtracking factor below a rejected trial (or the search gave up)
+        r.0 == alphamax || exists|prev: F, w: Seq<F>| #[trigger] trial_at(w, z@, dz@, prev) && !old(self).in_dual(w)
+            && (r.0 == f_mul(prev, settings.linesearch_backtrack_step) || (r.0 == f_zero() && f_lt(f_mul(prev, settings.linesearch_backtrack_step), settings.min_terminate_step_length))),
+        r.1 == alphamax || exists|prev: F, w: Seq<F>| #[trigger] trial_at(w, s@, ds@, prev) && !old(self).in_primal(w)
+            && (r.1 == f_mul(prev, settings.linesearch_backtrack_step) || (r.1 == f_zero() && f_lt(f_mul(prev, settings.linesearch_backtrack_step), settings.min_terminate_step_length))),
+//@closure 1
+=
+(b: bool) ensures b == self.in_primal(s@)
+//@closure 2
+=
+(b: bool) ensures b == self.in_dual(s@)
+//@after "let alphaz = backtrack_search("
+        let ghost wz = work@;
+//@after "let alphas = backtrack_search("
+        let ghost ws = work@;
+        proof {
+            assert(self.alpha@ == old(self).alpha@);
+            if alphaz != f_zero() { assert(old(self).in_dual(wz) && trial_at(wz, z@, dz@, alphaz)); }
+            if alphas != f_zero() { assert(old(self).in_primal(ws) && trial_at(ws, s@, ds@, alphas)); }
+            if alphaz != alphamax {
+                let prev = choose|prev: F| #[trigger] trial_rejected(is_dual_feasible_fcn, z@, dz@, prev) && (alphaz == f_mul(prev, step) || (alphaz == f_zero() && f_lt(f_mul(prev, step), alphamin)));
+                let w = choose|w: &[F]| trial_at(w@, z@, dz@, prev) && is_dual_feasible_fcn.ensures((w,), false);
+                assert(trial_at(w@, z@, dz@, prev) && !self.in_dual(w@));
+            }
+            if alphas != alphamax {
+                let prev = choose|prev: F| #[trigger] trial_rejected(is_prim_feasible_fcn, s@, ds@, prev) && (alphas == f_mul(prev, step) || (alphas == f_zero() && f_lt(f_mul(prev, step), alphamin)));
+                let w = choose|w: &[F]| trial_at(w@, s@, ds@, prev) && is_prim_feasible_fcn.ensures((w,), false);
+                assert(trial_at(w@, s@, ds@, prev) && !self.in_primal(w@));
+            }
+        }
+//@end
+}
+
 // ------------------------------------------------------------------ F-real readings (exact reals) of the contracts above
 pub open spec fn imin(a: int, b: int) -> int { if a <= b { a } else { b } }
 pub open spec fn imax(a: int, b: int) -> int { if a >= b { a } else { b } }
@@ -951,7 +1025,7 @@ pub proof fn lemma_Hs_block_is_operator(d: Seq<F>, blk: Seq<F>, x: Seq<F>, y: Se
     broadcast use real_arith;
     lemma_sym3_table();
     assert(y[i] == m3_rowdot(d, i, x));
-    assert forall|j: int| 0 <= j < 3 implies blk[tri(imax(i, j)) + imin(i, j)] == m3(d, i, j) by {
+    assert forall|j: int| 0 <= j < 3 implies blk[tri(imax(i, j)) + imin(i, j)] == #[trigger] m3(d, i, j) by {
         assert(blk[tri(imax(i, j)) + imin(i, j)] == m3(d, imin(i, j), imax(i, j)));
         assert(sym3_idx(imin(i, j), imax(i, j)) == sym3_idx(i, j));
     }
